@@ -1,1 +1,90 @@
-fn main(){}
+//! Engine for the quire properties: C04 (accumulation), C12 (state operations), C18 (polynomials).
+mod cells;
+mod hist;
+mod poly;
+mod qx;
+
+use serde_json::json;
+use softposit::{Q16E1, Q32E2, Q8E0};
+use vpcore::{run_cells, CellDef, Cfg, Extra, Report};
+
+fn hist_part<Q: qx::Qx>(cfg: &Cfg, extra: &mut Extra, depth: u8, rich: bool) {
+    let pf = if cfg.prop == "C12" { "C12" } else { "C04" };
+    let r = hist::explore::<Q>(depth, rich, cfg.threads, pf);
+    eprintln!(
+        "  [{}] {}/history depth<={} actions={} unique_states={} transitions={} pruned(out of range)={} limb-carries={} {:.1}s",
+        cfg.prop,
+        Q::NAME,
+        depth,
+        hist::action_alphabet::<Q>(rich).len(),
+        r.unique_states,
+        r.transitions,
+        r.pruned,
+        r.carries,
+        r.wall_s
+    );
+    extra.states += r.unique_states;
+    extra.transitions += r.transitions;
+    extra.validated += r.transitions;
+    extra.nontrivial += r.carries;
+    extra.samples.push(r.sample);
+    extra.tables.push(json!({"explorer": "stateright 0.31 BFS (+DFS recount)", "cell": format!("{}/history", Q::NAME), "depth_bound": depth,
+        "unique_states": r.unique_states, "states_generated": r.generated, "transitions_checked_against_model": r.transitions,
+        "transitions_into_already_seen_states (different histories, same exact sum, same bits)": r.generated.saturating_sub(r.unique_states),
+        "histories_pruned_out_of_range": r.pruned, "transitions_with_cross_limb_carry": r.carries, "max_depth": r.max_depth, "wall_s": r.wall_s}));
+    extra.violations.extend(r.violations);
+}
+
+fn main() {
+    let cfg = Cfg::from_args();
+    let t = cfg.thorough();
+    let mut cells: Vec<CellDef> = vec![];
+    let mut extra = Extra::default();
+    match cfg.prop.as_str() {
+        "C04" | "C12" => {
+            let want = cfg.prop.clone();
+            let mut all = vec![];
+            all.extend(cells::from_zero::<Q8E0>(t));
+            all.extend(cells::from_zero::<Q16E1>(t));
+            all.extend(cells::from_zero::<Q32E2>(t));
+            all.extend(cells::from_seeds::<Q8E0>(t));
+            all.extend(cells::from_seeds::<Q16E1>(t));
+            all.extend(cells::from_seeds::<Q32E2>(t));
+            all.extend(cells::state_ops_after::<Q8E0>(t));
+            all.extend(cells::state_ops_after::<Q16E1>(t));
+            all.extend(cells::state_ops_after::<Q32E2>(t));
+            if want == "C04" {
+                all.extend(cells::spellings::<Q8E0>(t));
+                all.extend(cells::spellings::<Q16E1>(t));
+                all.extend(cells::spellings::<Q32E2>(t));
+            }
+            cells = all.into_iter().filter(|c| c.prop == want).collect();
+            if cfg.replay.is_none() && cfg.eval.is_none() && cfg.cell_filter.is_none() {
+                let dflt = if t { (10, 9, 9) } else { (8, 8, 8) };
+                let dd: Vec<u8> = cfg.extra.get("depth").map(|s| s.split(',').map(|x| x.parse().unwrap()).collect()).unwrap_or_default();
+                let (d8, d16, d32) = if dd.len() == 3 { (dd[0], dd[1], dd[2]) } else { dflt };
+                vpcore::install_panic_hook();
+                hist_part::<Q8E0>(&cfg, &mut extra, d8, t);
+                hist_part::<Q16E1>(&cfg, &mut extra, d16, t);
+                hist_part::<Q32E2>(&cfg, &mut extra, d32, t);
+            }
+        }
+        "C18" => {
+            cells = poly::cells(t);
+        }
+        p => {
+            eprintln!("vp_quire: no cells for property {p}");
+            std::process::exit(2);
+        }
+    }
+    let rep = Report {
+        rule: "transition layer: every (seed state, operation) case is executed on the real quire and its full bit image, is_zero, is_nar and to_posit are compared with an exact 512-bit integer model; history layer: stateright explores every history of the action alphabet up to the depth bound on the real quire, checking every transition and every reachable state; non-trivial = carry/borrow across a 64-bit limb, sign change, cancellation to zero, NaR, or a to_posit that rounds".into(),
+        assumptions: vec![
+            "rustc/LLVM compile the oracle and the crate correctly".into(),
+            "the reference model (vp_oracle: exact rationals, 512-bit integers, posit-rule rounding)".into(),
+            "histories whose exact partial sum leaves the quire range are pruned (the property is conditional on staying in range)".into(),
+        ],
+        bound: format!("all cells and all histories up to the depth bound complete ({} tier)", cfg.tier),
+    };
+    std::process::exit(run_cells(&cfg, cells, extra, rep));
+}
